@@ -49,10 +49,16 @@ _GLUE = re.compile(r'(Tk\d+q)(?=(?:Running \S* tests:|  Ran \d+ tests|Total: \d+
                    r'Tearing down left over layers:|Iteration \d+$|  Running:$|Listing \S* tests:))', re.M)
 
 
+_GLUE_TOTAL = re.compile(r'(?<=[^\n])(Total: \d+ tests, \d+ failures, \d+ errors and \d+ skipped in |'
+                         r'Running \S+ tests:$|  Ran \d+ tests with \d+ failures, \d+ errors and \d+ skipped in )', re.M)
+
+
 def parse(text):
     p = Parsed()
     # a test may leave an unterminated line (always ending in a 'Tk<n>q' token) in front of a runner line
     text = _GLUE.sub(lambda m: m.group(1) + '\n', text)
+    # a child that died in the middle of a line leaves it unterminated in front of the parent's next line
+    text = _GLUE_TOTAL.sub(r'\n\1', text)
     lines = text.split('\n')
     p.lines = lines
     cur = None
